@@ -96,3 +96,23 @@ Example C33_example_two_running :
   exists s : st, run (init 3) [ESchedule; ESchedule; ETake 2; ETake 0; EBegin 0 1; EBegin 2 0] = Some s /\
                  ws s = [WRun 1; WWait; WRun 0] /\ started s = [0; 1].
 Proof. eexists. vm_compute. repeat split. Qed.
+
+(* hidden per-thread state: an asset task that reads a thread-local generator state before writing it (a
+   `static thread_local` pseudo-random generator seeded once per thread and carried from one texture to the next)
+   does NOT satisfy the hypothesis [scratch_clean] of C33_schedule_independent: its output depends on the content of
+   the thread's scratch ... *)
+Theorem C33_thread_local_state_refuted : ~ scratch_clean (site_owner tl_site) 2 tl_task.
+Proof. exact tl_task_not_clean. Qed.
+Print Assumptions C33_thread_local_state_refuted.
+
+(* ... and indeed the compiled assets then depend on the schedule: with every generator seeded 42, one worker taking
+   both textures produces (295, 302), two workers taking one each produce (295, 295) *)
+Example C33_thread_local_state_schedules_differ :
+  exists c1 c2 : cfg Z,
+    acts tl_task (init_cfg 2 (fun _ : loc => 42%Z)) [(0, Some 0); (0, None); (0, None); (0, None); (0, None);
+                                                      (0, Some 1); (0, None); (0, None); (0, None); (0, None)]%nat = Some c1 /\
+    acts tl_task (init_cfg 2 (fun _ : loc => 42%Z)) [(0, Some 0); (1, Some 1); (0, None); (1, None); (0, None); (1, None);
+                                                      (0, None); (1, None); (0, None); (1, None)]%nat = Some c2 /\
+    running c1 = [] /\ running c2 = [] /\ pending c1 = [] /\ pending c2 = [] /\
+    map (fun e : Z => cmem c1 (1, e)%Z) [0; 1]%Z = [295; 302]%Z /\ map (fun e : Z => cmem c2 (1, e)%Z) [0; 1]%Z = [295; 295]%Z.
+Proof. eexists. eexists. vm_compute. repeat split. Qed.
